@@ -35,6 +35,7 @@ RULE += (' Also: items / results that merely expose an __await__ attribute (not 
 RULE += (' Also: any_iter over objects offering both iteration protocols.')
 RULE += (' Also: generator-based coroutines as awaitables of await_each; non-awaitable elements (TypeError when reached).')
 RULE += (' Also: any_iter over sources that are falsy although they provide items.')
+RULE += (' Also: await_each over a list extended by the consumer while it is iterated.')
 ASSUMPTIONS = ["direct specification oracle (no stdlib twin exists for these helpers)"]
 EXHAUSTIVE = {"quick": True, "thorough": True}
 MAX_SHARDS = 8
@@ -59,6 +60,8 @@ def cases(tier, seed, shard, nshards):
                     idx += 1
                     if idx % nshards == shard:
                         yield {"kind": "await_each", "n": n, "steps": steps, "susp": susp, "cont": cont}
+                        if cont == "list":
+                            yield {"kind": "await_each", "n": n, "steps": steps, "susp": susp, "cont": "worklist"}
                         for aw_kind in ("legacy", "mixed", "bad"):
                             yield {"kind": "await_each", "n": n, "steps": steps, "susp": susp, "cont": cont, "aw_kind": aw_kind}
     for n in range(0, 6):
@@ -542,12 +545,21 @@ def run_await_each(case, stats):
             yield c
 
     arg = coros if case["cont"] == "list" else feed()
+    later = []
+    if case["cont"] == "worklist":
+        # a list used as a WORK QUEUE: the consumer appends follow-up awaitables while it iterates (``for x in work``
+        # reaches them): the caller's list is iterated live, not a snapshot of it
+        arg = coros[:(n + 1) // 2]
+        later = coros[(n + 1) // 2:]
     got = []
 
     async def main():
         it = A.await_each(arg)
         for step in range(case["steps"]):
             events.append(("step", step))
+            if step == 1 and later:
+                arg.extend(later)
+                later.clear()
             try:
                 got.append(await it.__anext__())
             except StopAsyncIteration:
